@@ -318,6 +318,31 @@ func checkPairing(p *an.Prog, r *an.Run, fn *ssa.Function, withAtomic bool) {
 		r.Fail("pairing", name+":credit", fn.Pos(), "no credit found in the transfer")
 		return
 	}
+	// every peer of the list is credited: inside the loop that credits, no turn can come round again without having
+	// passed the credit call (a `continue` ahead of it for peers "whose credit and debit would cancel anyway" lets a
+	// client use those hosts for free)
+	for _, c := range credits {
+		in, isIn := c.(ssa.Instruction)
+		if !isIn || !onCycle(in.Block()) {
+			continue
+		}
+		hdr := loopHeader(in.Block())
+		if hdr == nil {
+			continue
+		}
+		isC := func(x ssa.Instruction) bool { return x == in }
+		atHdr := func(x ssa.Instruction) bool { return x.Block() == hdr }
+		var skips []string
+		for _, sc := range hdr.Succs {
+			if !an.ReachFrom([]*ssa.BasicBlock{sc}, nil)[hdr] {
+				continue
+			}
+			if hit := pathFromBlock(fn, sc, isC, atHdr); hit != nil {
+				skips = append(skips, "a turn of the loop can reach the next one without the credit at "+p.Pos(c.Pos())+" having been attempted")
+			}
+		}
+		r.Check(len(skips) == 0, "pairing", name+":every-peer", c.Pos(), "every peer handed to the transfer is credited", "%s", strings.Join(dedup(skips), "; "))
+	}
 	debit := debits[0]
 	neg := negCallOf(p, methodArgs(debit)[1])
 	// accumulator = root of Neg's operand
